@@ -121,6 +121,40 @@ packet NewOrder { repeat Party { u8 Role, string Id, }, u64 Px, Shared, }
 packet CancelOrder { Party { u8 Role, }, Shared, repeat Shared Others, }
 packet Shared { u8 s, }
 """,
+    # a NON-root packet with two match fields over different key fields whose payloads are declared after it
+    "twomatch": opts() + """root packet Frame {
+    u8 kind,
+    match kind as env {
+        1 : Envelope,
+    },
+}
+packet Envelope {
+    u8 ka,
+    u16 kb,
+    match ka as pa {
+        1 : PA1,
+        2 : PA2,
+    },
+    match kb as pb {
+        1 : PB1,
+        [2, 3] : PB2,
+    },
+}
+packet PA1 { u8 a, }
+packet PA2 { u16 a, }
+packet PB1 { u8 b, }
+packet PB2 { i64 b, }
+""",
+    # the Go test file of Foo and the Go code file of FooTest are both foo_test.go
+    "nameclash": opts() + """root packet Foo {
+    u8 a,
+    FooTest,
+    Bar,
+}
+packet FooTest { u16 b, }
+packet Bar { u8 c, }
+packet BarTest { u32 d, }
+""",
     # no padding cells beyond the default; little-endian; lenof + checksum
     "lencheck": opts("    LittleEndian = true;\n") + """root packet R {
     u16 T,
